@@ -1632,5 +1632,6 @@ pub fn corpus(thorough: bool) -> Vec<Case> {
     out.extend(f14());
     out.extend(f15());
     out.extend(f5o());
+    out.extend(super::stdlib::cases(thorough));
     out
 }
